@@ -63,3 +63,17 @@ MUTANTS += [
     dict(property='C16', name='_jump serial path asks for a fresh RandomState', file=SIMF, old="                                                                      seed=seed,\n                                                                      pre_tau=self.pre_tau)", new="                                                                      seed=True,\n                                                                      pre_tau=self.pre_tau)"),
     dict(property='C04', name='_jump starts the path one step late', file=SIMF, old="        xList = [x.copy()]          # states\n        tList = [t]                 # timepoints", new="        xList = [x.copy()]          # states\n        tList = [t + 1]                 # timepoints"),
 ]
+OUF = 'pygom/model/ode_utils/__init__.py'
+DETF = 'pygom/model/deterministic.py'
+MUTANTS += [
+    dict(property='C02', name='_integrateOneStep returns the live buffer again (no copy)', file=OUF, old="        else:\n            return r.y.copy()\n", new="        else:\n            return r.y\n"),
+    dict(property='C02', name='ivode silently uses adams', file=OUF, old="set_integrator('vode', method='bdf',", new="set_integrator('vode', method='adams',"),
+    dict(property='C02', name='includeOrigin appends after the loop', file=OUF, old="    if includeOrigin:\n        solution.append(x0)\n\n    if isinstance(t, Number):", new="    if isinstance(t, Number):"),
+    dict(property='C02', name='full_output restarts from the previous time', file=OUF, old="r = _setupIntegrator(func, jac, o1, deltaT, args, method, nsteps)", new="r = _setupIntegrator(func, jac, o1, t0, args, method, nsteps)"),
+    dict(property='C02', name='dop853 dispatches to dopri5', file=OUF, old="        r = scipy.integrate.ode(func).set_integrator('dop853', nsteps=nsteps,", new="        r = scipy.integrate.ode(func).set_integrator('dopri5', nsteps=nsteps,"),
+    dict(property='C02', name='loose tolerance', file=OUF, old="atol = 1e-10\n", new="atol = 1e-3\n"),
+    dict(property='C02', name='_integrate2 drops the first requested time', file=DETF, old="                                               t[0], t[1::],", new="                                               t[0], t[2::],"),
+    dict(property='C02', name='_setIntegrateTime appends t0 at the end', file=DETF, old="                t = np.append(self._t0, t)\n", new="                t = np.append(t, self._t0)\n"),
+    dict(property='C02', name='odeint gets the column-derivative flag', file=OUF, old="col_deriv=False,", new="col_deriv=True,"),
+    dict(property='C02', name='jacobian_T does not swap arguments', file=DETF, old="        return self.jacobian(state, t)\n\n    def _Jacobian_NoCheck", new="        return self.jacobian(t, state)\n\n    def _Jacobian_NoCheck"),
+]
